@@ -23,12 +23,14 @@
 //   - An overflow/underflow "signal" is a panic (log.Panicf).  Any panic is accepted as the
 //     signal when the exact result does not fit; any panic when it fits is a violation.
 //
-// Known finding (see /verif/known_findings.txt): Uint128.Mul with both high limbs non-zero
-// (the partial product w1*w1 is never looked at, so the overflow is not always signalled).
-// The repair is three lines, but the pinned TestUint128_Mul expects the wrapped results
-// {1,2}*{3,4}={10,8} and {100,200}*{300,400}={100000,80000} and would start failing; that
-// operand shape is left out of the "u128.mul" check (counted in excluded_known_findings),
-// every other shape of Uint128.Mul stays checked.
+// Known finding (see /verif/known_findings.txt): Uint128.Mul never looks at the partial
+// product w1*w1, so with both high limbs non-zero the overflow is signalled only when
+// the other partial products overflow as well.  The repair is three lines, but the pinned
+// TestUint128_Mul expects the wrapped results {1,2}*{3,4}={10,8} and
+// {100,200}*{300,400}={100000,80000} and would start failing.  The check "u128.mul" leaves
+// out exactly the pairs whose only overflow evidence is that partial product (both high
+// limbs non-zero and a*b - (a.w1*b.w1 << 128) < 2^128; counted in excluded_known_findings);
+// every other pair stays checked.
 package c20
 
 import (
@@ -38,7 +40,7 @@ import (
 	"verifharness/internal/fatal"
 )
 
-const findingMul128 = "Uint128.Mul-both-high-limbs-nonzero"
+const findingMul128 = "Uint128.Mul-overflow-only-in-w1*w1"
 
 func TestMain(m *testing.M) {
 	fatal.Install() // discards logrus output (casts and shifts log warnings), keeps panics observable
